@@ -128,7 +128,7 @@ func runC01(c *vk.Ctx) {
 		r := c.RNG(key)
 		p := c07Profile(r)
 		p.Sinks = i%2 == 1
-		p.BigValues = false
+		p.BigValues = i%6 == 0 // results of 65536+limit.. bytes are refused by the cache; 65535-byte limits make 64 KiB pages
 		a := app.Generate(r, p)
 		cfg := genConfig(r, a, "s")
 		cfg.OutputSize = 0
